@@ -689,6 +689,9 @@ def r17_slot_cover(ctx):
         rep.anchor(rule, "slot-wise operations")
         loops = [n for n in walk_no_nested(f.node) if isinstance(n, ast.For)
                  and U(n.iter).endswith(".__slots__")]
+        loops += [g for n in ast.walk(f.node)
+                  for g in getattr(n, "generators", ())
+                  if U(g.iter).endswith(".__slots__")]
         rep.check(bool(loops), rule, ctx.fkey(f, None, "iterates-slots"),
                   f.loc(), "%s iterates __slots__" % name,
                   "Duration.%s no longer iterates __slots__ (cannot show "
